@@ -11,6 +11,8 @@ RULE = ("solve / edit / evaluate sequences = behaviours of spec/Pep.tla with >= 
 
 def select(t, c):
     step, prop, name, detail = c
+    if prop == "ALL":
+        return sc.crash(t, c, PID, None)
     o = t["solves"][step - 1]
     cls = sc.CLASSNAME.get(t["prog"]["cls"], "?")
     if prop == "C13":
